@@ -1,1 +1,4 @@
 -- Root of the RF library: imports every property file (kept current by hand).
+import RF.Props.C09
+import RF.Props.C12
+import RF.Props.C18
